@@ -172,13 +172,21 @@ pub fn check_c05_like(case: &CliCase, cx: &mut CaseCtx, check_rejects_content: b
         }
     }
     if check_rejects_content {
+        let mut seen: Vec<&String> = Vec::new();
         for (p, op, _) in &expected_rej {
+            if seen.contains(&p) {
+                continue;
+            }
+            seen.push(p);
+            // all entries of the failing patch for this file, in patch order
+            let entries: Vec<&FileOp> = expected_rej.iter().filter(|(q, _, _)| q == p).map(|(_, o, _)| *o).collect();
             let Some((data, _)) = rejects.get(p) else { continue };
             let rf = match read_rej(data) {
                 Ok(r) => r,
                 Err(e) => return Verdict::Fail(format!("reject {:?} is not a readable unified diff: {}; content {:?}", p, e, esc(&data[..data.len().min(400)]))),
             };
-            let want: Vec<RejHunk> = op.failing_hunks.iter().map(|&i| rej_hunk_of(&op.hunks[i])).collect();
+            let want: Vec<RejHunk> = entries.iter().flat_map(|op| op.failing_hunks.iter().map(|&i| rej_hunk_of(&op.hunks[i])).collect::<Vec<_>>()).collect();
+            cx.label_if(entries.len() > 1, "several-failing-entries-for-one-file");
             if rf.hunks != want {
                 return Verdict::Fail(format!(
                     "reject {:?} does not hold exactly the failed hunks {:?} of its file patch: found {} hunks {:?}, expected {:?}",
@@ -192,8 +200,8 @@ pub fn check_c05_like(case: &CliCase, cx: &mut CaseCtx, check_rejects_content: b
             // it must also be accepted by the tool's own parser and name the file
             match inproc::parse_summary(data, 0) {
                 inproc::Parsed::Ok(v) => {
-                    if v.len() != 1 {
-                        return Verdict::Fail(format!("reject {:?} parses to {} file patches", p, v.len()));
+                    if v.len() != entries.len() {
+                        return Verdict::Fail(format!("reject {:?} parses to {} file patches, the failing patch has {} entries for the file", p, v.len(), entries.len()));
                     }
                     let names_ok = [&v[0].old_name, &v[0].new_name].iter().any(|n| n.as_ref().map_or(false, |n| {
                         // names are paths: "a//b" and "a/./b" spell "a/b"
